@@ -177,6 +177,28 @@ pub fn run(run: &Run) {
         }
     });
 
+    // every scalar value behind ASCII prefixes whose length puts it on / next to 8, 16, 32 and 64-byte block boundaries
+    run.par("all_scalars_long_prefix", true, |tid, n, l| {
+        let pres: Vec<String> = [7usize, 8, 15, 16, 17, 31, 32, 33, 63, 64, 65].iter().map(|k| "a".repeat(*k)).collect();
+        let mut cp = tid as u32;
+        while cp < 0x110000 {
+            if let Some(c) = char::from_u32(cp) {
+                if cp % 8192 == 0 && run.stopped() {
+                    return;
+                }
+                for (i, pre) in pres.iter().enumerate() {
+                    let s = if i % 2 == 0 { format!("{pre}{c}") } else { format!("{pre}{c} z") };
+                    l.cases += 1;
+                    let p = profs[(cp as usize + i) % 2];
+                    if check(p, &s, l).is_err() {
+                        shrink_and_report(run, p, &s);
+                        return;
+                    }
+                }
+            }
+            cp += n as u32;
+        }
+    });
     super::pipe::stress(run, "alignment_and_runs", &super::pipe::PAYLOADS_SPACE, &|s, l| {
         for p in profs {
             if check(p, s, l).is_err() {
